@@ -179,7 +179,7 @@ impl LangInterpreter for Italian {
                 }
             }
             "milione" if b.is_range_free(6, 8) => {
-                if b.len() != 1 || b.peek(1) != b"1" {
+                if b.peek(3) != b"1" && b.peek(3) != b"001" {
                     Err(Error::NaN)
                 } else {
                     b.shift(6)
@@ -200,7 +200,7 @@ impl LangInterpreter for Italian {
                 }
             }
             "miliardo" => {
-                if b.len() != 1 || b.peek(1) != b"1" {
+                if b.peek(3) != b"1" && b.peek(3) != b"001" {
                     Err(Error::NaN)
                 } else {
                     b.shift(9)
@@ -221,7 +221,7 @@ impl LangInterpreter for Italian {
                 }
             }
             "bilione" => {
-                if b.len() != 1 || b.peek(1) != b"1" {
+                if b.peek(3) != b"1" && b.peek(3) != b"001" {
                     Err(Error::NaN)
                 } else {
                     b.shift(12)
